@@ -386,7 +386,8 @@ def class_(
                     map(RewriteName(param_names).visit, internal_body),
                 )
             )
-        elif (returns or {"return_type": None}).get("return_type") is not None:
+        elif "default" in ((returns or {"return_type": None}).get("return_type") or ()):
+            # (only a return entry that HAS a default can stand in for the body of `__call__`)
             internal_body = returns["return_type"]
 
     indent_level = 1
